@@ -129,7 +129,7 @@ func histories(nfiles int, allRestartMasks bool) []History {
 func EnumFileSets(tier string) (sets []FileSet, rule string, snapshotCases int) {
 	thorough := tier == "thorough"
 	touching, overlapping, unsorted := 0, 0, 0
-	threeFileQuick := map[string]bool{"tcp4": true, "udp4": true, "reuse-slow": true, "tcp-idle": true, "udp-idle": true, "tcp+udp": true}
+	threeFileQuick := map[string]bool{"tcp4": true, "udp4": true, "reuse-slow": true, "tcp-idle": true, "udp-idle": true, "tcp+udp": true, "udp-late-starter": true}
 	if thorough {
 		// snapshot sets first: they are the long-running items
 		for _, set := range ref.Sets() {
@@ -246,7 +246,7 @@ func EnumFileSets(tier string) (sets []FileSet, rule string, snapshotCases int) 
 			}
 			for c1 := 1; c1 < n; c1++ {
 				for c2 := c1 + 1; c2 < n; c2++ {
-					if !thorough && !(c1%3 == 1 && (c2-c1)%3 == 0) && !(set.Name == "udp-idle" || set.Name == "udp4") {
+					if !thorough && !(c1%3 == 1 && (c2-c1)%3 == 0) && !(set.Name == "udp-idle" || set.Name == "udp4" || set.Name == "udp-late-starter") {
 						continue
 					}
 					sets = append(sets, FileSet{Files: ref.Case{Set: set.Name, Interleave: il, Link: "eth", Cuts: []int{c1, c2}}, Hists: histories(3, thorough && threeFileQuick[set.Name])})
